@@ -58,3 +58,42 @@ const (
 
 // VerifC04SetCounter sets the unexported counter of an ItemValue (used to build arbitrary leaf contributions).
 func VerifC04SetCounter(v *ItemValue, c float64) { v.counter = c }
+
+// VerifC04Buf returns a copy of the table (all 2^sizeDegree slots, 0 = empty).
+func VerifC04Buf(ch *ChUnique) []uint32 {
+	if ch.buf == nil {
+		return nil
+	}
+	return append([]uint32(nil), ch.buf[:ch.bufSize()]...)
+}
+
+// VerifC04Unreachable runs the REAL insertImpl for every stored value on a deep copy: a value that is stored but not
+// found by the probe (insertImpl stores it again and increments itemsCount) is returned with ok=false.
+// It also reports whether itemsCount equals the number of occupied slots (+1 for the zero item).
+func VerifC04Unreachable(ch *ChUnique) (x uint32, reachable bool, countOK bool) {
+	if ch.buf == nil {
+		return 0, true, ch.itemsCount == 0
+	}
+	occupied := int32(0)
+	for _, v := range ch.buf[:ch.bufSize()] {
+		if v != 0 {
+			occupied++
+		}
+	}
+	if ch.hasZeroItem {
+		occupied++
+	}
+	countOK = occupied == ch.itemsCount
+	c := VerifC04Clone(ch)
+	for _, v := range ch.buf[:ch.bufSize()] {
+		if v == 0 {
+			continue
+		}
+		before := c.itemsCount
+		c.insertImpl(v)
+		if c.itemsCount != before {
+			return v, false, countOK
+		}
+	}
+	return 0, true, countOK
+}
